@@ -22,7 +22,7 @@ vars == <<l, st, last, pc>>
 StOf(ptype, o) ==
   [ bal |-> o.bal, fee |-> o.fee, feeAll |-> o.feeAll, burned |-> o.burned, col |-> o.col,
     circ |-> o.circ, S |-> o.S, lp |-> o.lp, w |-> o.w, fees |-> o.fees, tog |-> o.tog,
-    ptype |-> ptype ]
+    ptype |-> ptype, res |-> o.res ]     \* res: the reserves the Pool query REPORTS
 
 NoLast == [ev |-> "none"]
 
@@ -45,7 +45,15 @@ QueryChecks(o) ==
      <<"C01.query.total_share", o.Sq = o.S>>,
      <<"C18.fees.valid", FeesValid(o.fees)>> >>
 
-Globals(s, t, o) == StateChecks(t) \o StepChecks(s, t) \o QueryChecks(o)
+\* C01 speaks of the value backing one LP token as computed from the REPORTED reserves (Pool query)
+ReportedValue(s, t) ==
+  LET ok(r) == r[1] # "err" /\ r[2] # "err" IN
+  << <<"C01.lpvalue(reported-reserves)",
+        (s.ptype = "cp" /\ Zero \prec s.S /\ Zero \prec t.S /\ ok(s.res) /\ ok(t.res)) =>
+          (((t.res[1] ** t.res[2]) ** s.S) ** s.S) \succeq (((s.res[1] ** s.res[2]) ** t.S) ** t.S)>>,
+     <<"drift.query.reported-reserves=balance-minus-owed-fees",
+        ok(t.res) => \A a \in 1 .. 2 : t.res[a] ++ t.fee[a] = t.bal[a]>> >>
+Globals(s, t, o) == StateChecks(t) \o StepChecks(s, t) \o QueryChecks(o) \o ReportedValue(s, t)
 
 Unchanged(ev, t) ==
   << <<"C01.rejected.unchanged", t = st>>,
@@ -133,6 +141,8 @@ SwapEv(ev, t) ==
       ms == ev.args.ms  bp == ev.args.bp
       live == Zero \prec st.S /\ Zero \prec R(st, 1) /\ Zero \prec R(st, 2)
   IN SimFormula(ev) \o
+     \* a cw20 offer named in the direct swap message pays nothing in: it must be refused (an accepted one is judged as a swap)
+     (IF ev.args.wrong_path THEN << <<"C02.swap.only-against-tokens-paid-in", ev.res # "ok">> >> ELSE <<>>) \o
      IF ev.res = "ok"
      THEN LET o == ev.out  g == Gross(o) IN
           SwapChecks(st, dir, offer, o)
@@ -152,7 +162,7 @@ SwapEv(ev, t) ==
           \o ObsChecks(SwapNext(st, u, dir, offer, o, ev.args.to), ev.obs)
      ELSE Unchanged(ev, t)
           \o << <<"C15.swap.inside-rejected",
-                   ~( /\ sim.res = "ok" /\ live /\ st.tog.s /\ Zero \prec offer /\ offer \preceq st.w[u][dir]
+                   ~( /\ ~ev.args.wrong_path /\ sim.res = "ok" /\ live /\ st.tog.s /\ Zero \prec offer /\ offer \preceq st.w[u][dir]
                       /\ SpreadInside(offer, Gross(sim), sim.spread, ms, bp) )>> >>
 
 CollectEv(ev, t) ==
